@@ -1,5 +1,5 @@
 (* C03 (i): whatever the decoder accepts is a well-formed message value. *)
-From NV Require Import Lib.Base Lib.ListExt Codec.Lang Codec.Def Codec.Sem Codec.Total Codec.WF Codec.DispatchProofs Codec.RoundTrip.
+From NV Require Import Lib.Base Lib.ListExt Codec.Lang Codec.Def Codec.Sem Codec.Total Codec.WF Codec.LoopLemmas Codec.RoundTrip.
 From Coq Require Import String ZifyN ZifyNat ZifyBool.
 Open Scope N_scope.
 
